@@ -74,6 +74,11 @@ Theorem c19_lex_tokens_ordered : forall modes data l1 t1 t2 l2, lex_stream modes
 Proof. exact lex_tokens_ordered. Qed.
 Print Assumptions c19_lex_tokens_ordered.
 
+Theorem c19_lex_gaps_blank : forall modes data l1 t1 t2 l2, lex_stream modes data = Ok (l1 ++ t1 :: t2 :: l2) ->
+  gap_units (slice data (tk_start t1 + tk_len t1) (tk_start t2)).
+Proof. exact lex_gaps_blank. Qed.
+Print Assumptions c19_lex_gaps_blank.
+
 Theorem c19_lex_first_gap : forall modes data t ts, lex_stream modes data = Ok (t :: ts) -> gap_units (slice data 0 (tk_start t)).
 Proof. exact lex_first_gap. Qed.
 Print Assumptions c19_lex_first_gap.
@@ -185,6 +190,13 @@ Theorem c17_lex_first_token_kw_ok : forall ic, charclass_matches is_ident_char i
 Proof. exact lex_first_token_kw_ok. Qed.
 Print Assumptions c17_lex_first_token_kw_ok.
 
+(* hence every table whose entries the model reproduces satisfies the keyword property *)
+Theorem c17_keywords_match_model_ok : forall ic tbl, charclass_matches is_ident_char ic = true ->
+  forallb (fun e => let '(m, _, _, _) := e in m <? 4) tbl = true ->
+  keywords_match_model tbl = true -> keywords_ok ic tbl = true.
+Proof. exact keywords_match_model_ok. Qed.
+Print Assumptions c17_keywords_match_model_ok.
+
 (* Over the tables probed from the rebuilt code on this run (coq/gen/Gen_NinjaKeywords.v): *)
 Definition probed_keywords : list (N * bytes * N * N) :=
   expand_keyword_table probed_keyword_singles probed_keyword_families.
@@ -266,6 +278,11 @@ Theorem c17_shell_escaped_gen_ext : forall wl1 wl2, whitelist_same wl1 wl2 = tru
   forall s, shell_escaped_gen wl1 s = shell_escaped_gen wl2 s.
 Proof. exact shell_escaped_gen_ext. Qed.
 Print Assumptions c17_shell_escaped_gen_ext.
+
+Theorem c17_shell_roundtrip_probed : forall pw p, whitelist_same pw whitelist = true -> p <> [] -> ~ In 0 p ->
+  shell_escaped_gen pw p = shell_escaped p /\ sh_words (shell_escaped_gen pw p) = Some [p].
+Proof. exact shell_roundtrip_probed. Qed.
+Print Assumptions c17_shell_roundtrip_probed.
 
 (* Over the whitelist probed from the rebuilt code on this run (coq/gen/Gen_ShellWhitelist.v): *)
 
